@@ -10,9 +10,9 @@ Proofs_C13.vos Proofs_C13.vok Proofs_C13.required_vos: Proofs_C13.v /verif/coq/B
 Proofs_C13b.vo Proofs_C13b.glob Proofs_C13b.v.beautified Proofs_C13b.required_vo: Proofs_C13b.v /verif/coq/Base.vo Kernels.vo KLemmas.vo Proofs_C13.vo
 Proofs_C13b.vio: Proofs_C13b.v /verif/coq/Base.vio Kernels.vio KLemmas.vio Proofs_C13.vio
 Proofs_C13b.vos Proofs_C13b.vok Proofs_C13b.required_vos: Proofs_C13b.v /verif/coq/Base.vos Kernels.vos KLemmas.vos Proofs_C13.vos
-Props_C13.vo Props_C13.glob Props_C13.v.beautified Props_C13.required_vo: Props_C13.v /verif/coq/Base.vo Kernels.vo KLemmas.vo Proofs_C13.vo Proofs_C13b.vo
-Props_C13.vio: Props_C13.v /verif/coq/Base.vio Kernels.vio KLemmas.vio Proofs_C13.vio Proofs_C13b.vio
-Props_C13.vos Props_C13.vok Props_C13.required_vos: Props_C13.v /verif/coq/Base.vos Kernels.vos KLemmas.vos Proofs_C13.vos Proofs_C13b.vos
-Extract_C13.vo Extract_C13.glob Extract_C13.v.beautified Extract_C13.required_vo: Extract_C13.v Kernels.vo
-Extract_C13.vio: Extract_C13.v Kernels.vio
-Extract_C13.vos Extract_C13.vok Extract_C13.required_vos: Extract_C13.v Kernels.vos
+Proofs_C13c.vo Proofs_C13c.glob Proofs_C13c.v.beautified Proofs_C13c.required_vo: Proofs_C13c.v /verif/coq/Base.vo Kernels.vo KLemmas.vo Proofs_C13.vo Proofs_C13b.vo
+Proofs_C13c.vio: Proofs_C13c.v /verif/coq/Base.vio Kernels.vio KLemmas.vio Proofs_C13.vio Proofs_C13b.vio
+Proofs_C13c.vos Proofs_C13c.vok Proofs_C13c.required_vos: Proofs_C13c.v /verif/coq/Base.vos Kernels.vos KLemmas.vos Proofs_C13.vos Proofs_C13b.vos
+Props_C13.vo Props_C13.glob Props_C13.v.beautified Props_C13.required_vo: Props_C13.v /verif/coq/Base.vo Kernels.vo KLemmas.vo Proofs_C13.vo Proofs_C13b.vo Proofs_C13c.vo
+Props_C13.vio: Props_C13.v /verif/coq/Base.vio Kernels.vio KLemmas.vio Proofs_C13.vio Proofs_C13b.vio Proofs_C13c.vio
+Props_C13.vos Props_C13.vok Props_C13.required_vos: Props_C13.v /verif/coq/Base.vos Kernels.vos KLemmas.vos Proofs_C13.vos Proofs_C13b.vos Proofs_C13c.vos
